@@ -216,6 +216,9 @@ def scale_chain(fn, var_name):
         labs = {l["en"] for g in groups for l in g["labels"] if l["en"]}
         if not ({"DT_DURH", "DT_DURM", "DT_DURS"} <= labs):
             continue
+        if len({i for i, g in enumerate(groups) for l in g["labels"] if l["en"] in UNIT}) < 3:
+            # the three units share one body: a dispatch on the unit, not the scaling chain
+            continue
         out = {}
         widths = []
         for i, g in enumerate(groups):
